@@ -1,5 +1,5 @@
 """Property -> harnesses registry."""
-import h_doc, h_c13, h_lib, h_squash, h_pos, h_paths, h_titles, h_actions, h_events
+import h_doc, h_c13, h_lib, h_squash, h_pos, h_paths, h_titles, h_actions, h_events, h_server
 
 def doc(prog, tier):
     return h_doc.DocHarness(prog, tier)
@@ -57,6 +57,7 @@ PATHS_SPEC = {'make': lambda prog, tier: h_paths.PathsHarness(prog, tier), 'time
 
 TITLES_SPEC = {'make': lambda prog, tier: h_titles.TitlesHarness(prog, tier), 'time_limit': {'quick': 300, 'thorough': 600}}
 
+SERVER_SPEC = {'make': lambda prog, tier: h_server.ServerHarness(prog, tier), 'time_limit': {'quick': 420, 'thorough': 1800}, 'crates': ('liwe', 'iwes')}
 EVENTS_SPEC = {'make': lambda prog, tier: h_events.EventsHarness(prog, tier), 'time_limit': {'quick': 300, 'thorough': 900}}
 ACTIONS_SPEC = {'make': lambda prog, tier: h_actions.ActionsHarness(prog, tier), 'time_limit': {'quick': 420, 'thorough': 2400}, 'crates': ('liwe', 'iwes')}
 ACTIONS_LISTS_SPEC = {'make': lambda prog, tier: h_actions.ActionsHarness(prog, tier, 'lists'), 'time_limit': {'quick': 420, 'thorough': 2400}, 'crates': ('liwe', 'iwes')}
@@ -66,9 +67,13 @@ ACT_NOTES = COMMON + [
     'native replay goes through the real providers and the real text layer (markdown re-parsed and projected)']
 
 PROPS = {
+    'C08': {'specs': [SERVER_SPEC], 'notes': COMMON + [
+        'claimed at tree level through the real handle_rename: the workspace edit is read as (deleted uris, created uris, per-uri GraphBlocks) with NodeIter::to_markdown '
+        'stubbed to the real Projector output and Url modelled natively (parse / join / to_string on ASCII names); notes in the library root plus one sub-directory note',
+        'the emitted text, percent-encoding of unusual file names (C14) and sub-directory rename sites are outside']},
     'C09': {'specs': [ACTIONS_SPEC], 'notes': ACT_NOTES},
     'C10': {'specs': [ACTIONS_SPEC, ACTIONS_LISTS_SPEC], 'notes': ACT_NOTES},
-    'C12': {'specs': [ACTIONS_SPEC, ACTIONS_LISTS_SPEC, dict(LIB_SPEC, crates=('liwe', 'iwes'))], 'notes': ACT_NOTES + ['claimed at the handler -> liwe boundary for code actions: action() for every provider x every node of a note never panics, and every offered action resolves (changes() is Some and does not panic); serde, Urls, the router and the other request kinds are outside']},
+    'C12': {'specs': [SERVER_SPEC, ACTIONS_SPEC, ACTIONS_LISTS_SPEC, dict(LIB_SPEC, crates=('liwe', 'iwes'))], 'notes': ACT_NOTES + ['claimed at the handler -> liwe boundary for code actions: action() for every provider x every node of a note never panics, and every offered action resolves (changes() is Some and does not panic); serde, Urls, the router and the other request kinds are outside']},
     'C06': {'specs': [TITLES_SPEC, LIB_SPEC], 'notes': COMMON + [
         'decision kernel only: link kind x position x url form x (linking directory, target directory) x target has heading; output read from the projected GraphBlocks; '
         'the final "[text](url)" string and the refs_extension concatenation are outside',
@@ -88,7 +93,7 @@ PROPS = {
     'C05': {'specs': [LIB_SPEC, TITLES_SPEC], 'notes': COMMON + [
         'oracle: independent scan of the input Documents with the statement\'s resolution rule (relative to the linking note\'s directory, .md ignored, '
         'external URLs excluded); notes in the library root only (sub-directory resolution is string/path code, see not-claimed C15)']},
-    'C13': {'specs': [KERNEL_SPEC, LINESTARTS_SPEC, POS_SPEC, POSB_SPEC], 'notes': COMMON + [
+    'C13': {'specs': [KERNEL_SPEC, LINESTARTS_SPEC, POS_SPEC, POSB_SPEC, SERVER_SPEC], 'notes': COMMON + [
         'claimed for the conversion kernels: to_line_range / to_inline_range over every sorted line table (symbolic 64-bit entries) and byte range; '
         'line_starts over strings given by their line structure (symbolic line lengths, LF / CRLF / missing final newline), std str::lines / '
         'split_inclusive / split / len modelled on that structure',
